@@ -3,7 +3,7 @@ import UralModel.Lemmas.QuoteRoundTrip
 import UralModel.Lemmas.QuotePost
 import UralModel.Lemmas.QuoteSplit
 /-!
-# `safely_unquote_auth_item` after FX-C01-NFKCUSERINFO: the partial, then `requoteNfkc`
+# `safely_unquote_auth_item` after FX-C01-194b1c7: the partial, then `requoteNfkc`
 
 What the theorems about `canonicalize_url` / `normalize_url` need of the new step:
 it is the token pass `nfkcToks` (`requoteNfkc_render`), keeps the decoded bytes
@@ -354,7 +354,7 @@ theorem authItem_eq_partial {s : Str}
     safelyUnquoteAuthItem s = safelyUnquote Gen.Quote.unsafeForAuthItem s :=
   requoteNfkc_eq_self h
 
-/-- the witness of FX-C01-NFKCUSERINFO: `%EF%BC%A0x` (U+FF20 FULLWIDTH COMMERCIAL AT) stays
+/-- the witness of FX-C01-194b1c7: `%EF%BC%A0x` (U+FF20 FULLWIDTH COMMERCIAL AT) stays
 escaped, the partial alone decodes it -/
 example :
     safelyUnquoteAuthItem "%EF%BC%A0x%C3%A9".toList = "%EF%BC%A0xé".toList ∧
